@@ -40,7 +40,9 @@ def _run(args):
 def run(tier):
     rep = core.Report("C15", tier, "E1 simx")
     base = dict(n_strategies=2, n_clients=2, sels=SELS, max_live=3)
-    cfgs = [dict(base, name="fast", dt=200, rich=(tier == "thorough")), dict(base, name="slow", dt=100)]
+    cfgs = [dict(base, name="fast", dt=200, rich=(tier == "thorough")), dict(base, name="slow", dt=100),
+            # exposure limits configured: the what-if queries of the exposure control run (and refuse) alongside
+            dict(base, name="fast-limits", dt=200, strategy_kw=dict(max_order_exposure=20, max_selection_exposure=8, max_market_exposure=8))]
     c04.explore(rep, ENABLED, alphabet, tier, cfgs, depth_q=3, depth_t=4, dev_k_q=2, dev_k_t=3, horizon=7, run=_run)
     rep.need("replacement_orders_seen", "placed")
     rep.rule = "BFS with dedup + deviation-bounded histories; all blotter views compared with a shadow list of accepted orders after every update and at closure"
